@@ -118,7 +118,7 @@ Lemma BO_eq : BO = [([36%N], ([36%N], TkMathInline)); ([92;40]%N, ([92;41]%N, Tk
 Proof. vm_compute. reflexivity. Qed.
 
 Definition m_tok (k : mathkind) : tokkind :=
-  match k with MBracket => TkMathDisplay | _ => TkMathInline end.
+  match k with MBracket | MDollars => TkMathDisplay | _ => TkMathInline end.
 
 (** * Strings *)
 Definition hd_not (f : N -> bool) (b : str) : Prop :=
@@ -270,6 +270,7 @@ Section Stages.
     destruct k; cbn [m_open m_tok hd app mem_c existsb N.eqb Pos.eqb orb andb startswith length].
     - specialize (D eq_refl). destruct r as [|d r]; [reflexivity|]. cbn [hd_not] in D.
       cbn [startswith]. rewrite (N.eqb_sym 36 d), D. reflexivity.
+    - destruct r; reflexivity.
     - destruct r; reflexivity.
     - destruct r; reflexivity.
   Qed.
